@@ -107,6 +107,10 @@ namespace ip {
 
 		if (m_queue.empty()) return;
 
+		// a stale wake-up: the lookup this wait was armed for has been
+		// cancelled, and the queue now starts with a later one
+		if (m_queue.front().completion_time > chrono::high_resolution_clock::now()) return;
+
 		typename queue_t::value_type v = std::move(m_queue.front());
 		m_queue.erase(m_queue.begin());
 
